@@ -248,6 +248,69 @@ def main():
                 out.append((key, "return", src, reify(obj, fuel0) if ok else None))
         return imports_ok, out
 
+    def fd_term(key, params, has_self, args, ret, yld):
+        path = key.split(".")
+        return "(Build_fdef %s %s %s %s %s %s %s)" % (
+            coq_list(coq_str(p) for p in path[:-1]), coq_str(path[-1]), coq_bool(has_self),
+            coq_list(f"({coq_str(n)}, {d})" for n, d in params),
+            coq_list(f"({coq_str(n)}, {common.reify_type(t, ct)})" for n, t in args.items()),
+            coq_opt(common.reify_type(ret, ct) if ret is not None else None),
+            coq_opt(common.reify_type(yld, ct) if yld is not None else None))
+
+    def run_history(case):
+        """A StubIndexBuilder that is asked for its stubs after every session of traces; the stub after the last session
+        is the implementation's output.  The types the annotations must denote are those of a FRESH builder that is given
+        all traces at once and asked once; a difference between the two texts is reported as `rc_raised`.
+        -> (fd terms, text, raised, unstable, function keys)"""
+        import inspect
+        from monkeytype.stubs import StubIndexBuilder
+        from monkeytype.tracing import CallTrace
+        own = case["own"]
+        mod = importlib.import_module(own)
+
+        def traces(sess):
+            out = []
+            for fn in sess:
+                func = mod
+                for part in fn["key"].split("."):
+                    func = getattr(func, part)
+                out.append(CallTrace(func, {n: build(t) for n, t in fn["args"]},
+                                     build(fn["ret"]) if fn["ret"] is not None else None,
+                                     build(fn["yield"]) if fn["yield"] is not None else None))
+            return out
+        try:
+            inc = StubIndexBuilder(".*", 0)
+            text = ""
+            for sess in case["history"]:
+                for tr in traces(sess):
+                    inc.log(tr)
+                got = inc.get_stubs()
+                text = got[own].render() if own in got else ""
+            fresh = StubIndexBuilder(".*", 0)
+            for sess in case["history"]:
+                for tr in traces(sess):
+                    fresh.log(tr)
+            fstubs = fresh.get_stubs()[own]
+            fresh_text = fstubs.render()
+        except Exception as e:
+            return [], "", f"{type(e).__name__}: {e}", None, []
+        unstable = None
+        if text != fresh_text:
+            unstable = ("generation after a later tracing session: StubIndexBuilder.get_stubs() differs from a fresh builder "
+                        f"given the same traces; the fresh builder says: {fresh_text!r}")
+        entries = [(name, st) for name, st in fstubs.function_stubs.items()]
+        for cname, cs in fstubs.class_stubs.items():
+            entries += [(cname + "." + name, st) for name, st in cs.function_stubs.items()]
+        terms, keys = [], []
+        for key, st in entries:
+            params, has_self = fx.FUNC_SHAPES[key]
+            sig = st.signature
+            args = {n: p.annotation for n, p in sig.parameters.items() if p.annotation is not inspect.Parameter.empty}
+            ret = sig.return_annotation if sig.return_annotation is not inspect.Signature.empty else None
+            terms.append(fd_term(key, params, has_self, args, ret, None))
+            keys.append(key)
+        return terms, text, None, unstable, keys
+
     cases = json.load(open(cases_path))
     results = []
     for case in cases:
@@ -260,7 +323,8 @@ def main():
         mod = importlib.import_module(own)
         fd_terms, defs, traced = [], [], []
         raised = None
-        for fn in case["fns"]:
+        hist = run_history(case) if case.get("history") else None
+        for fn in (case["fns"] if hist is None else []):
             func = mod
             for part in fn["key"].split("."):
                 func = getattr(func, part)
@@ -284,7 +348,9 @@ def main():
             except Exception as e:
                 raised = f"{type(e).__name__}: {e}"
         text, imports_ok, annos = "", True, []
-        if raised is None:
+        if hist is not None:
+            fd_terms, text, raised, unstable_h, keys_h = hist
+        if raised is None and hist is None:
             try:
                 stubs = build_module_stubs(defs)
                 text = stubs[own].render() if own in stubs else ""
@@ -294,8 +360,8 @@ def main():
         # traced types, so the signatures are equal but not identical objects).  The stub must not depend on how often it
         # has been generated: the LAST generation is the one that is evaluated below, and any difference between
         # generations is reported to Coq as `rc_raised` (no repeatable stub exists for this input).
-        unstable = None
-        if raised is None:
+        unstable = None if hist is None else unstable_h
+        if raised is None and hist is None:
             first = text
             for generation in (2, 3):
                 try:
@@ -317,12 +383,12 @@ def main():
                 raised_note = f"stub does not parse: {e}"
                 case["parse_error"] = raised_note
         raised = raised or unstable
-        table = collections.OrderedDict((fn["key"], []) for fn in case["fns"])
+        table = collections.OrderedDict((k, []) for k in ([fn["key"] for fn in case["fns"]] if hist is None else keys_h))
         for key, slot, src, term in annos:
             table.setdefault(key, []).append(f"({coq_str(slot)}, ({coq_str(src)}, {coq_opt(term)}))")
         annos_term = coq_list(f"({coq_str(k)}, {coq_list(v)})" for k, v in table.items())
         term = "(Build_rcase the_ct %s %s %s %s %s %s)" % (
-            coq_str(own), coq_list(fd_terms), coq_bool(raised is not None), coq_str(text),
+            coq_str(own), coq_list(fd_terms), "__RAISED__", coq_str(text),
             coq_bool(imports_ok), annos_term)
         results.append({"term": term, "text": text, "raised": raised, "imports_ok": imports_ok,
                         "parse_error": case.get("parse_error"),
